@@ -287,7 +287,7 @@ def std(t):
     :return: a scalar :math:`\ge 0`
     """
 
-    return torch.sqrt(tn.var(t))
+    return torch.sqrt(torch.clamp(tn.var(t), min=0))
 
 
 def skew(t):
